@@ -16,7 +16,7 @@ namespace AITB.Factored
 /-- `TagErrors` -/
 inductive TagErr where
   | none | noElements | tooManyElements | idTooHigh | notSorted | duplicates
-  deriving DecidableEq, Repr, BEq
+  deriving DecidableEq, Repr
 
 def TagErr.code : TagErr → Nat
   | .none => 0 | .noElements => 1 | .tooManyElements => 2 | .idTooHigh => 3 | .notSorted => 4 | .duplicates => 5
